@@ -72,14 +72,16 @@ def as_less_specific(a, r):
                   z3.Or(z3.Not(a[1][3][1]), opt_eq(a[1][3], r[1][3])))
 
 
-def spec_ok(result_name, default, avail, reqs):
+def spec_ok(result_name, default, avail, reqs, parses=None):
     ids = {n: concrete_langid(n) for n in avail}
     res = ids[result_name]
     clauses = []
     none_before = []
-    for r in reqs:
-        any_i = z3.Or([as_less_specific(ids[a], r) for a in avail])
-        any_exact = z3.Or([exact(ids[a], r) for a in avail])
+    for i, r in enumerate(reqs):
+        # an entry that does not parse as a language identifier is ignored
+        ok = parses[i] if parses is not None else z3.BoolVal(True)
+        any_i = z3.And(ok, z3.Or([as_less_specific(ids[a], r) for a in avail]))
+        any_exact = z3.And(ok, z3.Or([exact(ids[a], r) for a in avail]))
         first = z3.And(none_before + [any_i])
         clauses.append(z3.Implies(first, z3.And(as_less_specific(res, r), z3.Implies(any_exact, exact(res, r)))))
         none_before.append(z3.Not(any_i))
@@ -273,6 +275,55 @@ def make_summaries(avail, default):
             return ret(st, o[2])
         return ret(st, ("loc", default))
 
+    def s_into_iter_entries(m, st, args, callee):
+        v = m.deref_all(st, args[0])
+        return ret(st, ("iter", tuple(v[1]), 0))
+
+    def s_lazy(kind):
+        def f(m, st, args, callee):
+            return ret(st, ("lazy", kind, args[0], args[1]))
+        return f
+
+    def s_collect(m, st, args, callee):
+        lz = args[0]
+        if not (isinstance(lz, tuple) and lz[0] == "lazy"):
+            raise Unsupported("collect of %r" % (lz,))
+        _, kind, it, clos = lz
+        items = list(it[1])[it[2]:]
+        states = [(st, [], False)]
+        for item in items:
+            nxt = []
+            for st1, acc, stopped in states:
+                if stopped:
+                    nxt.append((st1, acc, True))
+                    continue
+                for st2, o in m.call_closure(st1, clos, [item]):
+                    if not (isinstance(o, tuple) and o[0] == "opt"):
+                        raise Unsupported("%s closure returned %r" % (kind, o))
+                    for val, cond in ((True, o[1]), (False, z3.Not(o[1]))):
+                        if not m.feasible(st2, cond):
+                            continue
+                        st3 = st2.fork(z3.simplify(cond))
+                        if val:
+                            nxt.append((st3, acc + [o[2]], False))
+                        elif kind == "filter_map":
+                            nxt.append((st3, acc, False))
+                        elif kind == "map_while":
+                            nxt.append((st3, acc, True))
+                        else:
+                            raise Unsupported("iterator adaptor %s" % kind)
+            states = nxt
+        return [(st1, ("vec", tuple(acc))) for st1, acc, _ in states]
+
+    def s_try_from_bytes(m, st, args, callee):
+        e = m.deref_all(st, args[0])
+        if not (isinstance(e, tuple) and e[0] == "entry"):
+            raise Unsupported("try_from_bytes of %r" % (e,))
+        return ret(st, ("opt", z3.Bool("entry%d_parses" % e[1]), symbolic_langid(e[1])))
+
+    def s_get_all(m, st, args, callee):
+        return ret(st, ("slice", tuple(("loc", a) for a in avail)))
+
     def s_mir(regex):
         def f(m, st, args, callee):
             return m.call_fn(m.fn(regex), list(args), st)
@@ -285,6 +336,18 @@ def make_summaries(avail, default):
         (r"^subtags_match$", s_mir(r"^fn subtags_match\(")),
         (r"^into_specificity$", pure_mir(r"^fn into_specificity\(")),
         (r"^filter_matches::<", s_mir(r"^fn filter_matches\(")),
+        (r"^find_match::<", s_mir(r"^fn find_match\(")),
+        (r"^convert_vec_str_to_langids_lossy::<", s_mir(r"^fn convert_vec_str_to_langids_lossy\(")),
+        (r"^<I as IntoIterator>::into_iter$", s_into_iter_entries),
+        (r"Iterator>::filter_map::<", s_lazy("filter_map")),
+        (r"Iterator>::map_while::<", s_lazy("map_while")),
+        (r"Iterator>::collect::<Vec<LanguageIdentifier>>$", s_collect),
+        (r"<J as AsRef<\[u8\]>>::as_ref$", s_ident),
+        (r"^LanguageIdentifier::try_from_bytes$", s_try_from_bytes),
+        (r"^Result::<LanguageIdentifier, ParserError>::ok$", s_ident),
+        (r"<Vec<LanguageIdentifier> as Deref>::deref$", s_deref_mut),
+        (r"Locale<L>>::get_all$", s_get_all),
+        (r"Locale<L>>::from_base_locale$", s_ident),
         (r"as AsRef<LanguageIdentifier>>::as_ref$", s_as_ref),
         (r"subtags::Language::is_empty$", s_lang_is_empty),
         (r"as PartialEq>::eq$", s_eq),
@@ -315,10 +378,10 @@ def make_summaries(avail, default):
 def decide(mir, default, avail, nreq, timeout_ms=60000):
     m = mir2.Machine(mir, make_summaries(avail, default), unroll=nreq + 3)
     reqs = [symbolic_langid(i) for i in range(nreq)]
+    parses = [z3.Bool("entry%d_parses" % i) for i in range(nreq)]
     st = mir2.St()
-    requested = ("slice", tuple(reqs))
-    available = ("slice", tuple(("loc", a) for a in avail))
-    outs = m.call_fn(m.fn(r"^fn find_match\("), [requested, available], st)
+    entries = ("slice", tuple(("entry", i) for i in range(nreq)))
+    outs = m.call_fn(m.fn(r"^fn locale_traits::Locale::find_locale\("), [entries], st)
     res = {"paths": len(outs), "avail": avail, "nreq": nreq, "solver_checks": m.solver_checks, "mir_fns": sorted(m.mir_fns_run)}
     if m.unwinding:
         res["status"] = "unwinding"
@@ -332,11 +395,11 @@ def decide(mir, default, avail, nreq, timeout_ms=60000):
         s = z3.Solver()
         s.set("timeout", timeout_ms)
         s.add(st1.pc)
-        s.add(z3.Not(spec_ok(v[1], default, avail, reqs)))
+        s.add(z3.Not(spec_ok(v[1], default, avail, reqs, parses)))
         r = s.check()
         if r == z3.sat:
             mdl = s.model()
-            bad = {"result": v[1], "requests": [describe_req(mdl, i) for i in range(nreq)]}
+            bad = {"result": v[1], "requests": [describe_req(mdl, i) if z3.is_true(mdl.eval(parses[i], model_completion=True)) else {"unparseable": True} for i in range(nreq)]}
             break
         if r == z3.unknown:
             res["status"] = "unknown"
@@ -376,6 +439,8 @@ def describe_req(mdl, i):
 
 
 def req_to_string(r):
+    if r.get("unparseable"):
+        return "*"
     lang = r["language"] or ("und" if r["language_code"] == 0 else "xx")
     s = lang
     if "script" in r:
@@ -477,12 +542,12 @@ def run(tier, seed):
         "states": sum(r["paths"] for r in runs) or 1, "transitions": sum(r.get("solver_checks", 0) for r in runs) or 1,
         "traces_validated_against_impl": replayed,
         "runs": runs, "solver": "z3 %s bit-vectors" % z3.get_version_string(), "solver_s": round(sum(r.get("solver_s", 0) for r in runs), 3),
-        "functions_encoded": ["leptos_i18n::langid::find_match", "filter_matches + its 3 closures", "lang_id_matches", "lang_matches", "subtag_matches", "subtags_match", "into_specificity (all from rustc MIR regenerated this run)"],
+        "functions_encoded": ["leptos_i18n::Locale::find_locale (trait default method)", "langid::convert_vec_str_to_langids_lossy + closure", "leptos_i18n::langid::find_match", "filter_matches + its 3 closures", "lang_id_matches", "lang_matches", "subtag_matches", "subtags_match", "into_specificity (all from rustc MIR regenerated this run)"],
         "mir_calls_summarised": sorted(calls),
-        "bounds": "supported sets %s; request lists of length 2 (thorough: 3 for 2-locale sets); every request is a fully symbolic language identifier: any language code, optional script, optional region, at most one variant. Outside: longer request lists, several variants, parsing of Accept-Language strings (convert_vec_str_to_langids_lossy / ICU)." % [a for _, a in SETS],
+        "bounds": "supported sets %s; request lists of length 2 (thorough: 3 for 2-locale sets); every entry either fails to parse (ignored) or is a fully symbolic language identifier: any language code, optional script, optional region, at most one variant. Outside: longer request lists, several variants, parsing of Accept-Language strings (convert_vec_str_to_langids_lossy / ICU)." % [a for _, a in SETS],
         "inconclusive": inconclusive,
     }, wall, [
-        "std / icu summaries: Vec new/to_vec/retain/push/sort_by(stable, comparator executed from MIR)/first, slice iter/cloned/next, Option is_some/is_none/copied/unwrap_or_default, PartialEq on subtags, Language::is_empty, Variants deref; any other call makes the check inconclusive",
+        "LanguageIdentifier::try_from_bytes is an uninterpreted parser: each entry has a free boolean 'parses' and free subtags", "std / icu summaries: into_iter / filter_map / map_while / collect, Vec new/to_vec/retain/push/sort_by(stable, comparator executed from MIR)/first, slice iter/cloned/next, Option is_some/is_none/copied/unwrap_or_default, PartialEq on subtags, Language::is_empty, Variants deref; any other call makes the check inconclusive",
         "language / script / region / variant subtags are opaque 32-bit codes compared for equality only (what the code does with TinyAsciiStr)",
         "Locale: AsRef<LanguageIdentifier> returns the identifier of the configured name (C13)",
     ], violations)
